@@ -8,6 +8,7 @@ CONSTANTS
   MaxWrite = 1
   Validates = {FALSE, TRUE}
   SetClass = "all"
+  UpdEnabled = {TRUE}
   Deviations = {"IsValueFlipOnNone"}
 VIEW vw
 INVARIANT NoViolation
